@@ -32,6 +32,14 @@ def io_fallible(fx, cg):
             if f not in iof and es & iof:
                 iof.add(f)
                 changed = True
+        # a generic helper that calls a trait method on its type parameter is I/O-fallible when an impl of that method is
+        for f, ents in getattr(cg, "poly", {}).items():
+            if f in iof or f not in fx.fns:
+                continue
+            from callgraph import _impls_of_trait_method
+            if any(c in iof for tr, m, _p in ents for c in _impls_of_trait_method(fx, tr, m)):
+                iof.add(f)
+                changed = True
     _cache[key] = (direct, iof)
     return direct, iof
 
